@@ -10,7 +10,8 @@ type SimConn interface {
 	SimSend(b []byte, m Msg) error
 	SimRecv(b []byte) (int, Msg, error)
 	SimClose() error
-	SimSetDeadline(t time.Time) error
+	// SimSetDeadline sets the read deadline (which=1), the write deadline (which=2) or both (which=3)
+	SimSetDeadline(which int, t time.Time) error
 	SimSetPassCred(option int) error
 }
 
@@ -30,24 +31,23 @@ func (s *Socket) Close() error {
 // SetDeadline shadows the promoted net.UnixConn method.
 func (s *Socket) SetDeadline(t time.Time) error {
 	if s.Sim != nil {
-		return s.Sim.SimSetDeadline(t)
+		return s.Sim.SimSetDeadline(3, t)
 	}
 	return s.UnixConn.SetDeadline(t)
 }
 
-// SetReadDeadline shadows the promoted net.UnixConn method. The simulated transport has one
-// deadline, and only receives can block on it (sends never block in the simulation).
+// SetReadDeadline shadows the promoted net.UnixConn method.
 func (s *Socket) SetReadDeadline(t time.Time) error {
 	if s.Sim != nil {
-		return s.Sim.SimSetDeadline(t)
+		return s.Sim.SimSetDeadline(1, t)
 	}
 	return s.UnixConn.SetReadDeadline(t)
 }
 
-// SetWriteDeadline shadows the promoted net.UnixConn method (no effect on a simulated transport).
+// SetWriteDeadline shadows the promoted net.UnixConn method.
 func (s *Socket) SetWriteDeadline(t time.Time) error {
 	if s.Sim != nil {
-		return nil
+		return s.Sim.SimSetDeadline(2, t)
 	}
 	return s.UnixConn.SetWriteDeadline(t)
 }
